@@ -8,6 +8,7 @@ pub mod casts;
 pub mod interop;
 pub mod io;
 pub mod lifts;
+pub mod provided;
 
 use io::*;
 use vek::mat::repr_c::column_major as cm;
@@ -95,6 +96,23 @@ pub fn property() -> Property {
     index!("euclid-f32", eu, lifts::euclid_total::<f32>(), ALL, ALL, lifts::euclid_all::<f32>);
     index!("euclid-f64", eu, lifts::euclid_total::<f64>(), ALL, ALL, lifts::euclid_all::<f64>);
 
+    // ---- every method (required and provided) of every lifted num-traits trait, through the trait
+    index!("trait-methods-i8", provided::ABOUT_INT, provided::TOTAL, ALL, ALL, provided::int_all::<i8>);
+    index!("trait-methods-i16", provided::ABOUT_INT, provided::TOTAL, ALL, ALL, provided::int_all::<i16>);
+    index!("trait-methods-i32", provided::ABOUT_INT, provided::TOTAL, ALL, ALL, provided::int_all::<i32>);
+    index!("trait-methods-i64", provided::ABOUT_INT, provided::TOTAL, ALL, ALL, provided::int_all::<i64>);
+    index!("trait-methods-i128", provided::ABOUT_INT, provided::TOTAL, ALL, ALL, provided::int_all::<i128>);
+    index!("trait-methods-isize", provided::ABOUT_INT, provided::TOTAL, ALL, ALL, provided::int_all::<isize>);
+    index!("trait-methods-u8", provided::ABOUT_INT, provided::TOTAL, ALL, ALL, provided::int_all::<u8>);
+    index!("trait-methods-u16", provided::ABOUT_INT, provided::TOTAL, ALL, ALL, provided::int_all::<u16>);
+    index!("trait-methods-u32", provided::ABOUT_INT, provided::TOTAL, ALL, ALL, provided::int_all::<u32>);
+    index!("trait-methods-u64", provided::ABOUT_INT, provided::TOTAL, ALL, ALL, provided::int_all::<u64>);
+    index!("trait-methods-u128", provided::ABOUT_INT, provided::TOTAL, ALL, ALL, provided::int_all::<u128>);
+    index!("trait-methods-usize", provided::ABOUT_INT, provided::TOTAL, ALL, ALL, provided::int_all::<usize>);
+    index!("trait-methods-f32", provided::ABOUT_FLOAT, provided::TOTAL, ALL, ALL, provided::float_all::<f32>);
+    index!("trait-methods-f64", provided::ABOUT_FLOAT, provided::TOTAL, ALL, ALL, provided::float_all::<f64>);
+    index!("trait-methods-mat-more-ints", "six matrix types, the element types i16 i64 i128 isize u16 u32 u128 usize (zero-one-mat-* run i32 u8 f32 f64): Zero::{zero, set_zero, is_zero} and One::{one, set_one, is_one} through the trait — zero() all elements 0, one() the identity, set_zero / set_one on receivers that are neither, is_zero / is_one iff every element is the zero's / the identity's (every (i,j) x special values); vek lifts no other num-traits trait to matrices and none to quaternions", provided::MAT_MORE_TOTAL, ALL, ALL, provided::zo_mats_more);
+
     // ---- casts
     let cv = "as_ (the `as` operator per lane), numcast (NumCast per lane; None iff some lane None), az / checked_as / saturating_as / wrapping_as / overflowing_as / unwrapped_as and the six az trait impls called as traits (Cast / CheckedCast / SaturatingCast / WrappingCast / OverflowingCast / UnwrappedCast; per lane the scalar az trait; None / flag / panic iff some lane) on all 13 vector types, 24 (source, target) scalar pairs; 1..2 lanes hold boundary values (float classes, just inside / outside every integer range, integer limits), the others distinct benign values";
     tape!("cast-vectors", cv, 16, 48_000, 1_500_000, casts::cast_vectors);
@@ -130,7 +148,7 @@ pub fn property() -> Property {
 
     Property {
         id: "C20",
-        rule: "index checks enumerate a finite space (vector type, lane / element position, background, operand or pair kind) completely in both tiers except the *-all sweeps of Vec32/Vec64 (quick: seeded sample; thorough: complete); tape checks decode proptest byte tapes (vector type, scalar pair, hot positions, boundary values). Non-trivial: lifted ops — across the y sweep the varied lane both fails (None / flag / panic) and succeeds while the other lanes are fixed (sampled: some lane fails); casts — some lane fails the checked / NumCast conversion while the others do not; approx — the varied position makes the predicate false for some tolerance while all other positions are identical (mixed: at least one position differs; same-object / bitwise-copy forms: some predicate is false on (v, v), i.e. an identity early-out would show); aliased lifts — as the lifted sweeps, with both operands the same object; integer abs_diff — some epsilon decides false; float Euclid — every case; zero/one — a single special element on a uniform background",
+        rule: "index checks enumerate a finite space (vector type, lane / element position, background, operand or pair kind) completely in both tiers except the *-all sweeps of Vec32/Vec64 (quick: seeded sample; thorough: complete); tape checks decode proptest byte tapes (vector type, scalar pair, hot positions, boundary values). Non-trivial: lifted ops — across the y sweep the varied lane both fails (None / flag / panic) and succeeds while the other lanes are fixed (sampled: some lane fails); casts — some lane fails the checked / NumCast conversion while the others do not; approx — the varied position makes the predicate false for some tolerance while all other positions are identical (mixed: at least one position differs; same-object / bitwise-copy forms: some predicate is false on (v, v), i.e. an identity early-out would show); aliased lifts — as the lifted sweeps, with both operands the same object; integer abs_diff — some epsilon decides false; float Euclid — every case; zero/one — a single special element on a uniform background; trait-methods-* — across the edge-pair sweep the varied lane both offends (None / flag / panic / not zero) and does not, and the combined checked method returns None (and, on a benign background, Some) (floats: the combined method ran and some predicate was false)",
         assumptions: &[
             "rustc and the proptest runner/shrinker are trusted",
             "the scalar rule is the scalar's own impl of the same trait (num-traits Checked*/Wrapping*/Saturating*/Overflowing*/Euclid/Inv/NumCast, az casts, approx impls for f32/f64); for as_ it is the `as` operator",
@@ -141,6 +159,7 @@ pub fn property() -> Property {
             "an operation applied to one object on both sides (op(&v, &v)) has the same per-lane meaning as on two objects: Rust references carry no identity semantics, and neither approx, num-traits nor vek document any",
             "integer AbsDiffEq: approx's signed impl computes abs(x - y), which overflows (panics in this profile) for far-apart values; lane evaluation order and short-circuiting are unspecified, so pairs whose difference or its absolute value overflows are not generated",
             "float results are compared bit for bit except that any NaN equals any NaN",
+            "trait-methods-*: the scalar rule for a PROVIDED trait method (set_zero, set_one, is_one, div_rem_euclid, checked_div_rem_euclid) is that same method on the primitive, i.e. num-traits' default body; MulAdd on vectors belongs to C02 and is not judged here; num-traits' shift traits (CheckedShl/Shr, WrappingShl/Shr), Bounded, Signed, Num, Pow, MulAddAssign and Inv for references are not implemented for any vek type, so there is nothing to call",
             "only the behaviour half of C20 is decided here; the feature-configuration build matrix is a separate tool",
         ],
         checks,
